@@ -451,12 +451,19 @@ def make_contour_case(vc, rng, cfg, cells2, cells3):
             deltas[j] = widths[j] / k
             deltas[0] = deltas[j] / ratio if 5 <= widths[0] / (deltas[j] / ratio) <= 4 * hi_n else deltas[0]
     deltas = [float(f"{d:.4g}") for d in deltas]
+    # safety cap on the number of cells (the harness records every cell)
+    cap = 260000.0
+    ncell = float(np.prod([w / d + 1 for w, d in zip(widths, deltas)]))
+    if ncell > cap:
+        f = (ncell / cap) ** (1.0 / ndim)
+        deltas = [float(f"{d * f:.4g}") for d in deltas]
     case = dict(kind="hdc", model=dims, alpha=alpha_s, cfg=cfg, np_seed=int(rng.integers(1 << 30)))
     if cfg["deltas"] == "scalar":
-        d = max(widths) / n0
-        if min(widths) / d < 5:
-            d = min(widths) / 5.0
-        case["deltas"] = float(f"{d:.4g}")
+        d = float(f"{max(widths) / n0:.4g}")
+        for lim in limits:  # a narrow axis is widened to at least 5 cells (more empty cells, same model)
+            if (lim[1] - lim[0]) / d < 5:
+                lim[1] = round(lim[0] + 5 * d, 3)
+        case["deltas"] = d
     elif cfg["deltas"] == "default":
         case["deltas"] = None
     else:
